@@ -410,3 +410,51 @@ def interval(e: ast.AST, env: dict, const=None):
         hi = max(a[1], b[1]) if a and b else POS_INF
         return None if lo is None else (lo, hi)
     return None
+
+
+def param_intervals(src, mod, fn, const_of):
+    """Intervals of the integer parameters of `fn`, from the arguments at every call site of the package (a function that is
+    called by name with `year % 400` only ever sees 0..399).  const_of(module name) gives the constant evaluator of a module.
+    A parameter is left out when a call site passes something whose interval is unknown, or when the function is never called
+    by name (it may be called through a table)."""
+    name = fn.name
+    params = [a.arg for a in fn.args.posonlyargs + fn.args.args]
+    is_method = bool(params) and params[0] in ('self', 'cls')
+    sites = []
+    for mn, m2 in src.mods.items():
+        for x in ast.walk(m2.tree):
+            if isinstance(x, ast.Call):
+                f = x.func
+                last = f.attr if isinstance(f, ast.Attribute) else (f.id if isinstance(f, ast.Name) else None)
+                if last == name:
+                    sites.append((mn, x))
+            elif isinstance(x, ast.Name) and x.id == name and isinstance(x.ctx, ast.Load) and not isinstance(getattr(x, 'parent', None), ast.Call):
+                pass
+    # the function used as a value somewhere (handed to map(), kept in a table): arguments unknown
+    for mn, m2 in src.mods.items():
+        for x in ast.walk(m2.tree):
+            if isinstance(x, (ast.Name, ast.Attribute)) and (getattr(x, 'id', None) == name or getattr(x, 'attr', None) == name) and isinstance(x.ctx, ast.Load):
+                par = m2.parents.get(x)
+                if not (isinstance(par, ast.Call) and par.func is x):
+                    return {}
+    if not sites:
+        return {}
+    out = {}
+    names = params[1:] if is_method else params
+    for i, pn in enumerate(names):
+        lo, hi = None, None
+        ok = True
+        for mn, call in sites:
+            arg = call.args[i] if i < len(call.args) and not any(isinstance(a, ast.Starred) for a in call.args) else next((k.value for k in call.keywords if k.arg == pn), None)
+            if arg is None:
+                ok = False
+                break
+            iv = interval(arg, {}, const_of(mn))
+            if iv is None:
+                ok = False
+                break
+            lo = iv[0] if lo is None else min(lo, iv[0])
+            hi = iv[1] if hi is None else max(hi, iv[1])
+        if ok and lo is not None:
+            out[pn] = (lo, hi)
+    return out
